@@ -352,6 +352,13 @@ theorem decMaybeIndef_shape (fi : Item) (df : Bool) (xs : List Item) (ds : List 
   · exact (decVec_def h xs ds f r hw hm (hN rfl)).2.1
   · exact (decVec_indef xs ds f r (hB rfl)).2.1
 
+/-- the `[any_constructor, fields]` part of a tag-102 constructor -/
+def inner102 (a f : Item) : Option PData :=
+  match a.uint?, f with
+  | some n, .seq h'' xs => if h''.major = 4 then (ofItems xs).map (.constr 102 (some n) true) else none
+  | some n, .seqIndef m xs => if m = 4 then (ofItems xs).map (.constr 102 (some n) false) else none
+  | _, _ => none
+
 theorem ofItem_tag (h : Head) (i : Item) : ofItem (.tag h i) =
     if h.val = 2 then (i.strPayload? 2).map fun bs => .int (.bigU bs)
     else if h.val = 3 then (i.strPayload? 2).map fun bs => .int (.bigN bs)
@@ -362,13 +369,8 @@ theorem ofItem_tag (h : Head) (i : Item) : ofItem (.tag h i) =
       | _ => none
     else if h.val = 102 then
       match i with
-      | .seq h' [a, f] =>
-        if h'.major = 4 then
-          match a.uint?, f with
-          | some n, .seq h'' xs => if h''.major = 4 then (ofItems xs).map (.constr 102 (some n) true) else none
-          | some n, .seqIndef m xs => if m = 4 then (ofItems xs).map (.constr 102 (some n) false) else none
-          | _, _ => none
-        else none
+      | .seq h' [a, f] => if h'.major = 4 then inner102 a f else none
+      | .seqIndef m' [a, f] => if m' = 4 then inner102 a f else none
       | _ => none
     else none := by
   cases i with
@@ -378,13 +380,71 @@ theorem ofItem_tag (h : Head) (i : Item) : ofItem (.tag h i) =
     | [_] => rw [ofItem] <;> simp
     | [a, f] =>
       rw [ofItem]
-      cases hu : a.uint? <;> cases f <;> simp [hu]
+      cases hu : a.uint? <;> cases f <;> simp [hu, inner102]
+    | _ :: _ :: _ :: _ => rw [ofItem] <;> simp
+  | seqIndef m' xs =>
+    match xs with
+    | [] => rw [ofItem] <;> simp
+    | [_] => rw [ofItem] <;> simp
+    | [a, f] =>
+      rw [ofItem]
+      cases hu : a.uint? <;> cases f <;> simp [hu, inner102]
     | _ :: _ :: _ :: _ => rw [ofItem] <;> simp
   | atom _ => rw [ofItem] <;> simp
   | str _ _ => rw [ofItem] <;> simp
   | strIndef _ _ => rw [ofItem] <;> simp
-  | seqIndef _ _ => rw [ofItem] <;> simp
   | tag _ _ => rw [ofItem] <;> simp
+
+/-- the definite or indefinite outer array of a tag-102 constructor -/
+def Outer102 (i a fi : Item) : Prop :=
+  (∃ h', i = .seq h' [a, fi] ∧ h'.major = 4) ∨ i = .seqIndef 4 [a, fi]
+
+theorem inner102_some (a fi : Item) (d : PData) (hfw : fi.wf = true) (ho : inner102 a fi = some d) :
+    ∃ ha n df xs ds, a = .atom ha ∧ ha.major = 0 ∧ ha.val = n ∧ ArrayShape fi df xs ∧ wfList xs = true ∧
+      ofItems xs = some ds ∧ d = .constr 102 (some n) df ds ∧ dsizes xs + 2 ≤ dsize fi := by
+  unfold inner102 at ho
+  cases hu : a.uint? with
+  | none => simp [hu] at ho
+  | some n =>
+    obtain ⟨ha, rfl, ham⟩ : ∃ ha, a = .atom ha ∧ ha.major = 0 := by
+      cases a with
+      | atom ha =>
+        refine ⟨ha, rfl, ?_⟩
+        simp only [Item.uint?] at hu
+        split at hu
+        · assumption
+        · simp at hu
+      | str _ _ => simp [Item.uint?] at hu
+      | strIndef _ _ => simp [Item.uint?] at hu
+      | seq _ _ => simp [Item.uint?] at hu
+      | seqIndef _ _ => simp [Item.uint?] at hu
+      | tag _ _ => simp [Item.uint?] at hu
+    have hn : ha.val = n := by simp [Item.uint?, ham] at hu; exact hu
+    simp only [hu] at ho
+    cases fi with
+    | seq h'' xs =>
+      simp only at ho
+      split at ho
+      · rename_i hm'
+        simp only [Option.map_eq_some_iff] at ho
+        obtain ⟨ds, hds, rfl⟩ := ho
+        simp only [Item.wf, Bool.and_eq_true] at hfw
+        exact ⟨ha, n, true, xs, ds, rfl, ham, hn, .inl ⟨h'', rfl, hm', rfl⟩, hfw.2, hds, rfl, by simp [dsize]⟩
+      · simp at ho
+    | seqIndef m xs =>
+      simp only at ho
+      split at ho
+      · rename_i hm'
+        subst hm'
+        simp only [Option.map_eq_some_iff] at ho
+        obtain ⟨ds, hds, rfl⟩ := ho
+        simp only [Item.wf, Bool.and_eq_true] at hfw
+        exact ⟨ha, n, false, xs, ds, rfl, ham, hn, .inr ⟨rfl, rfl⟩, hfw.2, hds, rfl, by simp [dsize]⟩
+      · simp at ho
+    | atom _ => simp at ho
+    | str _ _ => simp at ho
+    | strIndef _ _ => simp at ho
+    | tag _ _ => simp at ho
 
 mutual
 theorem decP_refines : ∀ (i : Item) (d : PData) (fuel : Nat) (r : Bytes),
@@ -527,9 +587,8 @@ theorem decP_refines : ∀ (i : Item) (d : PData) (fuel : Nat) (r : Bytes),
           · -- tag 102
             rename_i h2 h3 hc h102
             obtain ⟨f, rfl⟩ : ∃ f, fuel = f + 4 := ⟨fuel - 4, by omega⟩
-            have hshape : ∃ h' a fi n df xs ds, i = .seq h' [a, fi] ∧ h'.major = 4 ∧ a.uint? = some n ∧
-                ArrayShape fi df xs ∧ wfList xs = true ∧ ofItems xs = some ds ∧
-                d = .constr 102 (some n) df ds ∧ dsizes xs + 2 ≤ dsize fi := by
+            have hc102 : isConstrTag 102 = false := by decide
+            have hshape : ∃ a fi, Outer102 i a fi ∧ a.wf = true ∧ fi.wf = true ∧ inner102 a fi = some d := by
               cases i with
               | seq h' ys =>
                 match ys, ho with
@@ -537,82 +596,68 @@ theorem decP_refines : ∀ (i : Item) (d : PData) (fuel : Nat) (r : Bytes),
                   simp only at ho
                   split at ho
                   · rename_i hm
-                    cases hu : a.uint? with
-                    | none => simp [hu] at ho
-                    | some n =>
-                      simp only [hu] at ho
-                      cases fi with
-                      | seq h'' xs =>
-                        simp only at ho
-                        split at ho
-                        · rename_i hm'
-                          simp only [Option.map_eq_some_iff] at ho
-                          obtain ⟨ds, hds, rfl⟩ := ho
-                          simp only [Item.wf, wfList, Bool.and_eq_true] at hiw
-                          exact ⟨h', a, _, n, true, xs, ds, rfl, hm, hu, .inl ⟨h'', rfl, hm', rfl⟩,
-                            hiw.2.2.1.2, hds, rfl, by simp [dsize]⟩
-                        · simp at ho
-                      | seqIndef m xs =>
-                        simp only at ho
-                        split at ho
-                        · rename_i hm'
-                          subst hm'
-                          simp only [Option.map_eq_some_iff] at ho
-                          obtain ⟨ds, hds, rfl⟩ := ho
-                          simp only [Item.wf, wfList, Bool.and_eq_true] at hiw
-                          exact ⟨h', a, _, n, false, xs, ds, rfl, hm, hu, .inr ⟨rfl, rfl⟩,
-                            hiw.2.2.1.2, hds, rfl, by simp [dsize]⟩
-                        · simp at ho
-                      | atom _ => simp at ho
-                      | str _ _ => simp at ho
-                      | strIndef _ _ => simp at ho
-                      | tag _ _ => simp at ho
+                    simp only [Item.wf, wfList, Bool.and_eq_true] at hiw
+                    exact ⟨a, fi, .inl ⟨h', rfl, hm⟩, hiw.2.1, hiw.2.2.1, ho⟩
                   · simp at ho
                 | [], ho => simp at ho
                 | [_], ho => simp at ho
                 | _ :: _ :: _ :: _, ho => simp at ho
-              | seqIndef _ _ => simp at ho
+              | seqIndef m' ys =>
+                match ys, ho with
+                | [a, fi], ho =>
+                  simp only at ho
+                  split at ho
+                  · rename_i hm
+                    simp only [Item.wf, wfList, Bool.and_eq_true] at hiw
+                    exact ⟨a, fi, .inr (by rw [hm]), hiw.2.1, hiw.2.2.1, ho⟩
+                  · simp at ho
+                | [], ho => simp at ho
+                | [_], ho => simp at ho
+                | _ :: _ :: _ :: _, ho => simp at ho
               | atom _ => simp at ho
               | str _ _ => simp at ho
               | strIndef _ _ => simp at ho
               | tag _ _ => simp at ho
-            obtain ⟨h', a, fi, n, df, xs, ds, rfl, hm', hu, hs, hxs, hds, rfl, hsz⟩ := hshape
-            -- the inner definite 2-array, the uint, then the fields
-            have hiw2 := hiw
-            simp only [Item.wf, wfList, Bool.and_eq_true, decide_eq_true_eq] at hiw2
-            obtain ⟨⟨⟨⟨hwf', _⟩, hai'⟩, _⟩, haw, hfiw, _⟩ := hiw2
-            have hrs := readSeqHead_def h' hwf' hai' (a.encode ++ (fi.encode ++ r))
-            rw [hm'] at hrs
-            obtain ⟨ha, rfl, ham⟩ : ∃ ha, a = .atom ha ∧ ha.major = 0 := by
-              cases a with
-              | atom ha =>
-                refine ⟨ha, rfl, ?_⟩
-                simp only [Item.uint?] at hu
-                split at hu
-                · assumption
-                · simp at hu
-              | str _ _ => simp [Item.uint?] at hu
-              | strIndef _ _ => simp [Item.uint?] at hu
-              | seq _ _ => simp [Item.uint?] at hu
-              | seqIndef _ _ => simp [Item.uint?] at hu
-              | tag _ _ => simp [Item.uint?] at hu
-            have hn : ha.val = n := by simp [Item.uint?, ham] at hu; exact hu
+            obtain ⟨a, fi, hout, haw, hfiw, hin⟩ := hshape
+            obtain ⟨ha, n, df, xs, ds, rfl, ham, hn, hs, hxs, hds, rfl, hsz⟩ := inner102_some a fi d hfiw hin
             simp only [Item.wf, Bool.and_eq_true, decide_eq_true_eq] at haw
-            have hru := readHead_encode ha haw.1.1 haw.2 (fi.encode ++ r)
-            rw [ham] at hru
-            have hfsz : dsize fi + 6 ≤ f + 4 := by simp [dsize, dsizes] at hf; omega
-            have hmi := decMaybeIndef_shape fi df xs ds f r hs hfiw
-              (fun _ => decN_refines xs ds f r hxs hds (by omega))
-              (fun _ => decBreak_refines xs ds f r hxs hds (by omega))
-            have hor : isConstrTag h.val = true ∨ h.val = 102 := .inr h102
-            have henc : (Item.seq h' [Item.atom ha, fi]).encode ++ r
-                = h'.encode ++ ((Item.atom ha).encode ++ (fi.encode ++ r)) := by
-              simp [Item.encode, encodeList, List.append_assoc]
-            have hru' : readU64 ((Item.atom ha).encode ++ (fi.encode ++ r)) = some (n, fi.encode ++ r) := by
-              simpa [readU64, Item.encode, hn] using hru
-            rw [henc] at hrt
-            have hc102 : isConstrTag 102 = false := by decide
-            simp [decP, hdt, hrt, h2, h3, decConstr, hc, h102, hc102, hrs, hru', hmi]
+            rcases hout with ⟨h', rfl, hm'⟩ | rfl
+            · -- definite outer array of exactly two items
+              have hiw2 := hiw
+              simp only [Item.wf, wfList, Bool.and_eq_true, decide_eq_true_eq] at hiw2
+              obtain ⟨⟨⟨⟨hwf', _⟩, hai'⟩, hcnt⟩, _⟩ := hiw2
+              have hv2 : h'.val = 2 := by simp [seqCount, hm'] at hcnt; exact hcnt.symm
+              have hrs := readSeqHead_def h' hwf' hai' ((Item.atom ha).encode ++ (fi.encode ++ r))
+              rw [hm', hv2] at hrs
+              have hru := readHead_encode ha haw.1.1 haw.2 (fi.encode ++ r)
+              rw [ham] at hru
+              have hfsz : dsize fi + 6 ≤ f + 4 := by simp [dsize, dsizes] at hf; omega
+              have hmi := decMaybeIndef_shape fi df xs ds f r hs hfiw
+                (fun _ => decN_refines xs ds f r hxs hds (by omega))
+                (fun _ => decBreak_refines xs ds f r hxs hds (by omega))
+              have henc : (Item.seq h' [Item.atom ha, fi]).encode ++ r
+                  = h'.encode ++ ((Item.atom ha).encode ++ (fi.encode ++ r)) := by
+                simp [Item.encode, encodeList, List.append_assoc]
+              have hru' : readU64 ((Item.atom ha).encode ++ (fi.encode ++ r)) = some (n, fi.encode ++ r) := by
+                simpa [readU64, Item.encode, hn] using hru
+              rw [henc] at hrt
+              simp [decP, hdt, hrt, h2, h3, decConstr, hc, h102, hc102, hrs, hru', hmi]
+            · -- indefinite outer array: two items, then the break, which is consumed
+              have hrs := readSeqHead_indef 4 (by decide) ((Item.atom ha).encode ++ (fi.encode ++ 0xff :: r))
+              have hru := readHead_encode ha haw.1.1 haw.2 (fi.encode ++ 0xff :: r)
+              rw [ham] at hru
+              have hfsz : dsize fi + 7 ≤ f + 4 := by simp [dsize, dsizes] at hf; omega
+              have hmi := decMaybeIndef_shape fi df xs ds f (0xff :: r) hs hfiw
+                (fun _ => decN_refines xs ds f (0xff :: r) hxs hds (by omega))
+                (fun _ => decBreak_refines xs ds f (0xff :: r) hxs hds (by omega))
+              have henc : (Item.seqIndef 4 [Item.atom ha, fi]).encode ++ r
+                  = initByte 4 31 :: ((Item.atom ha).encode ++ (fi.encode ++ 0xff :: r)) := by
+                simp [Item.encode, encodeList, List.append_assoc]
+              have hru' : readU64 ((Item.atom ha).encode ++ (fi.encode ++ 0xff :: r))
+                  = some (n, fi.encode ++ 0xff :: r) := by
+                simpa [readU64, Item.encode, hn] using hru
+              rw [henc] at hrt
+              simp [decP, hdt, hrt, h2, h3, decConstr, hc, h102, hc102, hrs, hru', hmi]
           · simp at ho
 theorem decN_refines : ∀ (xs : List Item) (ds : List PData) (fuel : Nat) (r : Bytes),
     wfList xs = true → ofItems xs = some ds → dsizes xs ≤ fuel →
@@ -885,10 +930,19 @@ theorem goodAt_succ (f : Nat) (ih : GoodAt f) : GoodAt (f + 1) where
           · simp at h
           · split at h
             · simp at h
-            · simp only [Option.map_eq_some_iff] at h
-              obtain ⟨⟨⟨df, xs⟩, r'⟩, hm, e⟩ := h
-              simp only [Prod.mk.injEq] at e; rw [← e.1]
-              exact good_constr102 _ df xs (ih.m _ _ _ _ hm)
+            · split at h
+              · simp at h
+              · rename_i df xs r3 hm
+                have hg := fun a => good_constr102 a df xs (ih.m _ _ _ _ hm)
+                split at h
+                · split at h
+                  · simp only [Option.some.injEq, Prod.mk.injEq] at h; rw [← h.1]; exact hg _
+                  · simp at h
+                · split at h
+                  · simp at h
+                  · split at h
+                    · simp only [Option.some.injEq, Prod.mk.injEq] at h; rw [← h.1]; exact hg _
+                    · simp at h
         · simp at h
   m := by
     intro bs df xs r h
